@@ -76,6 +76,64 @@ def gen_reader(items):
                  'reload: named guard of reload_lock bound in the outermost block before create_searcher(..) and the single unconditional searcher.store(..)')
     items.append(serialised)
 
+    def warm_order():
+        body = fn_body(rd, 'create_searcher')
+        t = pos(body, r'Self::track_segment_readers_in_inventory\(')
+        n = pos(body, r'SearcherInner::new\(')
+        m = re.search(r'warming_state\s*\.\s*warm_new_searcher_generation\([^;]*\)\s*\?\s*;', body)
+        o = pos(body, r'Ok\(\s*searcher\s*\)')
+        v = 1 if (t is not None and n is not None and m and o is not None and t < n < m.start() < o
+                  and (body[:m.start()].count('{') - body[:m.start()].count('}')) == 0) else 0
+        return D('WARM_AFTER_TRACK_BEFORE_RETURN', v,
+                 'create_searcher: track in the inventory, build the searcher, warm_new_searcher_generation(..)? unconditionally, then Ok(searcher)')
+    items.append(warm_order)
+
+    def inner_fn_body(name):
+        wm = 'src/reader/warming.rs'
+        text = strip_comments(src(wm))
+        m = re.search(r'impl\s+WarmingStateInner\s*\{', text)
+        if not m:
+            raise Fail(f'{wm}: impl WarmingStateInner not found')
+        rest = text[m.end():]
+        m2 = re.search(r'fn\s+' + name + r'\b[^{]*\{', rest)
+        if not m2:
+            raise Fail(f'{wm}: WarmingStateInner::{name} not found')
+        i = m2.end(); depth = 1
+        while depth and i < len(rest):
+            depth += (rest[i] == '{') - (rest[i] == '}')
+            i += 1
+        return rest[m2.end():i - 1]
+
+    def warm_gc_list():
+        body = inner_fn_body('gc_maybe')
+        a = pos(body, r'let\s+live_generations\s*=\s*self\s*\.\s*searcher_generation_inventory\s*\.\s*list\(\)\s*;')
+        b = pos(body, r'let\s+live_generation_refs\s*=\s*live_generations\s*\.\s*iter\(\)\s*\.\s*map\(\s*Deref::deref\s*\)')
+        c = re.findall(r'warmer\s*\.\s*garbage_collect\(\s*&live_generation_refs\s*\)', body)
+        anyc = re.findall(r'\.\s*garbage_collect\(', body)
+        v = 1 if (a is not None and b is not None and a < b and len(c) == 1 and len(anyc) == 1) else 0
+        return D('WARMER_GC_GETS_INVENTORY_LIST', v,
+                 'gc_maybe: the only Warmer::garbage_collect call receives searcher_generation_inventory.list()')
+    items.append(warm_gc_list)
+
+    def warm_records():
+        body = inner_fn_body('warm_new_searcher_generation')
+        a = pos(body, r'warmed_generation_ids\s*\.\s*insert\(')
+        b = pos(body, r'warmer\s*\.\s*warm\(\s*searcher\s*\)')
+        v = 1 if (a is not None and b is not None and a < b) else 0
+        return D('WARM_RECORDS_ID_BEFORE_WARMERS', v,
+                 'warm_new_searcher_generation: the generation id is recorded before the warmers run')
+    items.append(warm_records)
+
+    def tracked_field():
+        text = strip_comments(src('src/core/searcher.rs'))
+        m = re.search(r'struct\s+SearcherInner\s*\{(.*?)\}', text, flags=re.S)
+        if not m:
+            raise Fail('src/core/searcher.rs: struct SearcherInner not found')
+        v = 1 if re.search(r'generation\s*:\s*TrackedObject<SearcherGeneration>', m.group(1)) else 0
+        return D('GENERATION_TRACKED_IN_SEARCHER_INNER', v,
+                 'SearcherInner owns the TrackedObject<SearcherGeneration>: the inventory entry lives as long as a clone of the searcher')
+    items.append(tracked_field)
+
     def snapshot():
         body = fn_body(rd, 'searcher')
         v = 1 if re.search(r'self\s*\.\s*searcher\s*\.\s*load\(\)\s*\.\s*clone\(\)\s*\.\s*into\(\)', body) else 0
